@@ -464,3 +464,208 @@ func validateOutcomeV(fn *ssa.Function, opLoad ssa.Value, opVal constant.Value, 
 	}
 	return res == 1, true
 }
+
+// ruleScanUnit: numeric literal suffix -> unit kind.
+func ruleScanUnit(r *Run) {
+	p := r.P
+	fn := p.Func("internal/lexerql", "ScanUnit")
+	o := r.Ob("CH-MAP", "lexerql.ScanUnit suffixes", "a number followed by a byte-size suffix is a Bytes literal, by a duration suffix a Duration literal (m is minutes, never mega), anything else is an error; each literal is validated by its own parser")
+	if fn == nil {
+		o.Fail("-", "function not found")
+		return
+	}
+	var tag *ssa.Call
+	for _, c := range callsIn(fn) {
+		if call, ok := c.(*ssa.Call); ok && callIs(call, "strings", "ToLower") {
+			tag = call
+		}
+	}
+	if tag == nil {
+		o.Undecide(r.pos(fn.Pos()), "no dispatch on the lower-cased suffix")
+		return
+	}
+	want := map[string]string{}
+	for _, s := range []string{"b", "kib", "kb", "mib", "mb", "gib", "gb", "tib", "tb", "pib", "pb", "eib", "eb", "ki", "k", "mi", "gi", "g", "ti", "t", "pi", "p", "ei", "e"} {
+		want[s] = "Bytes"
+	}
+	for _, s := range []string{"ns", "us", "µs", "μs", "ms", "s", "m", "h", "d", "w"} {
+		want[s] = "Duration"
+	}
+	want["x"] = "error"
+	want["mm"] = "error"
+	want[""] = "error"
+	U := p.NamedType("internal/lexerql", "UnitType")
+	var uconsts map[string]constant.Value
+	if U != nil {
+		uconsts = enumConstants(U)
+	}
+	// Number/Duration/Bytes are untyped constants in the package: read them from the scope
+	pk := p.Pkg("internal/lexerql")
+	kind := map[int64]string{}
+	for _, n := range []string{"Number", "Duration", "Bytes"} {
+		if c, ok := pk.Types.Scope().Lookup(n).(*types.Const); ok {
+			v, _ := constant.Int64Val(c.Val())
+			kind[v] = n
+		}
+	}
+	_ = uconsts
+	bad := false
+	var sufs []string
+	for s := range want {
+		sufs = append(sufs, s)
+	}
+	sort.Strings(sufs)
+	for _, suf := range sufs {
+		w := &feWalker{Fn: fn, Assume: map[ssa.Value]constant.Value{tag: constant.MakeString(suf)}, MaxPath: 5000}
+		got := map[string]bool{}
+		for _, e := range w.Run() {
+			reached := false
+			for _, c := range e.State.calls {
+				if c.Call == ssa.CallInstruction(tag) {
+					reached = true
+				}
+			}
+			if !reached || e.Cut || len(e.Results) != 2 {
+				continue
+			}
+			// result #0 is a Unit struct: find the stored Type field
+			k := "?"
+			if isErr, known := endReturnsError(e); known && isErr {
+				// default arm: zero Unit
+				k = "error"
+			}
+			u := e.Results[0].V
+			if lu, ok := u.(*ssa.UnOp); ok {
+				if al, ok := lu.X.(*ssa.Alloc); ok {
+					fs := allocFieldStores(al)
+					if tv, ok := fs["Type"]; ok {
+						if c, ok := constInt(tv); ok {
+							k = kind[c]
+							// which validator ran
+							for _, c2 := range e.State.calls {
+								callee := staticCallee(c2.Call)
+								if callee == nil {
+									continue
+								}
+								if k == "Bytes" && callee.Name() == "ParseDuration" || k == "Duration" && callee.Name() == "ParseBytes" {
+									k += "(validated by the wrong parser)"
+								}
+							}
+						}
+					}
+				}
+			}
+			got[k] = true
+		}
+		if g := joinSet(got); g != want[suf] {
+			bad = true
+			o.Fail(r.pos(fn.Pos()), "suffix %q yields %q, expected %s", suf, g, want[suf])
+		}
+	}
+	if !bad {
+		o.OK("%d suffixes agree", len(want)).At(r.pos(fn.Pos()))
+	}
+}
+
+// ruleParserUniqueness: duplicate label_format targets and duplicate regexp captures are errors.
+func ruleParserUniqueness(r *Run) {
+	p := r.P
+	for _, s := range []struct{ fn, what string }{{"parseLabelFormatExpr", "label_format target"}, {"parseRegexpLabelParser", "regexp capture name"}} {
+		fn := p.Method(logqlPkg, "parser", s.fn)
+		o := r.Ob("PV-FIRST", "logql.(*parser)."+s.fn+" uniqueness", "a repeated "+s.what+" is rejected: the name is looked up in the set of names seen so far, a hit is an error, a miss records it")
+		if fn == nil {
+			o.Fail("-", "method not found")
+			continue
+		}
+		var lk *ssa.Lookup
+		var mu *ssa.MapUpdate
+		allInstrs(fn, func(in ssa.Instruction) {
+			switch x := in.(type) {
+			case *ssa.Lookup:
+				if x.CommaOk {
+					if _, ok := x.X.(*ssa.MakeMap); ok {
+						lk = x
+					}
+				}
+			case *ssa.MapUpdate:
+				if mm, ok := x.Map.(*ssa.MakeMap); ok {
+					if mt, ok := mm.Type().Underlying().(*types.Map); ok {
+						if st, ok := mt.Elem().Underlying().(*types.Struct); ok && st.NumFields() == 0 {
+							mu = x
+						}
+					}
+				}
+			}
+		})
+		if lk == nil || mu == nil {
+			o.Fail(r.pos(fn.Pos()), "seen-set lookup=%v, insertion=%v", lk != nil, mu != nil)
+			continue
+		}
+		bad := false
+		if lk.X != mu.Map || describe(lk.Index, 0) != describe(mu.Key, 0) {
+			bad = true
+			o.Fail(r.pos(lk.Pos()), "the name that is tested (%s) is not the name that is recorded (%s)", describe(lk.Index, 0), describe(mu.Key, 0))
+		}
+		var okv ssa.Value
+		for _, ref := range *lk.Referrers() {
+			if e, ok := ref.(*ssa.Extract); ok && e.Index == 1 {
+				okv = e
+			}
+		}
+		if okv == nil {
+			bad = true
+			o.Fail(r.pos(lk.Pos()), "the presence result is ignored")
+		} else {
+			w := &feWalker{Fn: fn, Assume: map[ssa.Value]constant.Value{okv: constant.MakeBool(true)}, MaxPath: 5000}
+			for _, e := range w.Run() {
+				reached := false
+				for _, b := range e.State.trail {
+					if b == lk.Block() {
+						reached = true
+					}
+				}
+				if !reached || e.Cut {
+					continue
+				}
+				if isErr, known := endReturnsError(e); !(known && isErr) {
+					bad = true
+					o.Fail(r.pos(e.Term.Pos()), "a duplicate %s does not end in an error", s.what)
+				}
+			}
+			if b, known := knownBoolAt(mu.Block(), okv); !known || b {
+				bad = true
+				o.Fail(r.pos(mu.Pos()), "the name is recorded on a path that is not the miss edge")
+			}
+		}
+		if !bad {
+			o.OK("hit -> error; miss -> recorded").At(r.pos(fn.Pos()))
+		}
+	}
+	// strings are unquoted exactly once, by the lexer
+	lx := p.Method(lexerPkg, "lexer", "nextToken")
+	o := r.Ob("PV-API", "string literal unquoting", "a string token's text is unquoted once, in the lexer (strutil.Unquote); the parser never unquotes token text again")
+	n := 0
+	if lx != nil {
+		for _, c := range callsIn(lx) {
+			if callee := staticCallee(c); callee != nil && callee.Name() == "Unquote" {
+				n++
+			}
+		}
+	}
+	nParser := 0
+	for _, fn := range p.SrcFuncs() {
+		if fn.Pkg == nil || fn.Pkg.Pkg.Path() != modPath+"/"+logqlPkg {
+			continue
+		}
+		for _, c := range callsIn(fn) {
+			if callee := staticCallee(c); callee != nil && callee.Name() == "Unquote" {
+				nParser++
+			}
+		}
+	}
+	if lx != nil && n == 1 && nParser == 0 {
+		o.OK("one Unquote in lexer.nextToken, none in the parser")
+	} else {
+		o.Fail("-", "Unquote calls: lexer.nextToken=%d, parser package=%d", n, nParser)
+	}
+}
